@@ -128,17 +128,19 @@ def parseSite (s : String) : Option PSite :=
   | _ => none
 
 def globalKinds : List String :=
-  ["sb", "rwsb", "sbc", "sbtd", "sbreg", "sbarr", "rwsbarr", "sbarr2", "sbarru", "sbbl", "sbmem", "sbparam", "cb",
-   "cbuf", "gv", "gs", "st"]
+  ["sb", "rwsb", "sbc", "sbtd", "sbreg", "sbarr", "rwsbarr", "sbarr2", "sbarru", "sbbl", "sbtdarr", "sbarrtd", "sbarrtd2", "sbmem",
+   "sbparam", "cb", "cbuf", "gv", "gs", "st"]
 def fnKinds : List String :=
   ["bload", "bload2", "rwbload", "rwbload2", "rwbstore", "rwbstoret", "baload", "rwbaload", "rwbastore", "rwbastoret"]
-def wraps : List String := ["m", "u", "t", "t0", "me", "p", "a", "gi", "da", "ex"]
+def wraps : List String := ["m", "u", "t", "t0", "me", "p", "a", "gi", "da", "ex", "dt", "dta"]
 
 /-- what the type checker makes of a global declaration of the given kind (`none`: no entry in the global
-    registry that matters) -/
+    registry that matters).  An extern global's *base* type is made `const` before the declarator's array
+    dimensions are applied (`parse_globaltype`: "all extern variables are implicitly const"), so `T g[4]` is
+    `Array(Modifier(const, T))` and, with `typedef T A[2]`, `A g[3]` is `Array(Modifier(const, Array(T)))`. -/
 def globalOf (kind : String) (r : TyRef) : Option GTy :=
-  let sb := GTy.object "StructuredBuffer" (some r)
-  let rwsb := GTy.object "RWStructuredBuffer" (some r)
+  let sb := GTy.modifier (.object "StructuredBuffer" (some r))
+  let rwsb := GTy.modifier (.object "RWStructuredBuffer" (some r))
   if kind == "sb" || kind == "sbtd" || kind == "sbreg" then some sb
   else if kind == "rwsb" then some rwsb
   -- `const StructuredBuffer<const S>`: the element is the type id of `const S`, not of `S`
@@ -146,7 +148,11 @@ def globalOf (kind : String) (r : TyRef) : Option GTy :=
   else if kind == "sbarr" || kind == "sbarru" || kind == "sbbl" then some (.array sb)
   else if kind == "rwsbarr" then some (.array rwsb)
   else if kind == "sbarr2" then some (.array (.array sb))
-  else if kind == "cb" then some (.object "ConstantBuffer" (some r))
+  else if kind == "sbtdarr" then some (.modifier (.array (.object "StructuredBuffer" (some r))))
+  else if kind == "sbarrtd" then some (.array (.modifier (.array (.object "StructuredBuffer" (some r)))))
+  else if kind == "sbarrtd2" then
+    some (.array (.modifier (.array (.modifier (.array (.object "StructuredBuffer" (some r)))))))
+  else if kind == "cb" then some (.modifier (.object "ConstantBuffer" (some r)))
   else if kind == "sbparam" then none
   else some .other
 
@@ -166,9 +172,16 @@ def moduleOf (refs : List TyRef) (sites : List PSite) : Module :=
   let refOf (s : PSite) : TyRef := refs.getD s.ty ⟨0, .other .Void⟩
   let globals := indexed.filterMap fun (s, i) =>
     if s.wrap == "" then (globalOf s.kind (refOf s)).map fun g => ⟨g, "G" ++ toString i⟩ else none
-  let fnOf (s : PSite) : Fn := ⟨some (intrinsicOf s.kind), some [.type (refOf s)]⟩
-  let early := sites.filter fun s => ["u", "p", "me", "gi", "da"].contains s.wrap
-  let late := sites.filter fun s => ["m", "a", "t", "ex"].contains s.wrap
+  -- `dt` / `dta`: the type argument is the template parameter itself / an array of it (a type of its own)
+  let fnOf (si : PSite × Nat) : Fn :=
+    let s := si.1
+    let r : TyRef :=
+      if s.wrap == "dt" then ⟨2000000 + si.2, .other .TemplateParam⟩
+      else if s.wrap == "dta" then ⟨2000000 + si.2, .arr (.other .TemplateParam) 2⟩
+      else refOf s
+    ⟨some (intrinsicOf s.kind), some [.type r]⟩
+  let early := indexed.filter fun (s, _) => ["u", "p", "me", "gi", "da", "dt", "dta"].contains s.wrap
+  let late := indexed.filter fun (s, _) => ["m", "a", "t", "ex"].contains s.wrap
   ⟨globals, (early ++ late).map fnOf⟩
 
 def showProgVerdict (entries : List Entry) : Verdict → String
@@ -191,7 +204,7 @@ def handleProg (head tys sites : String) : String :=
       | some ts, some ss =>
         if ss.any fun s => s.ty ≥ ts.length ||
             !(if s.wrap == "" then globalKinds.contains s.kind else fnKinds.contains s.kind && wraps.contains s.wrap) ||
-            ((s.wrap == "gi" || s.wrap == "da") && !["bload", "rwbload", "baload", "rwbaload"].contains s.kind) ||
+            (["gi", "da", "dt", "dta"].contains s.wrap && !["bload", "rwbload", "baload", "rwbaload"].contains s.kind) ||
             (s.wrap == "ex" && !["bload", "bload2", "rwbload", "rwbload2", "baload", "rwbaload"].contains s.kind)
         then "bad-request"
         -- `void` only as the whole type argument of a typed load that is type checked
